@@ -27,6 +27,7 @@ class Manifest(DashElement):
         ('availabilityStartTime', from_isodatetime, None),
         ('id', str, None),
         ('minimumUpdatePeriod', from_isodatetime, None),
+        ('minBufferTime', from_isodatetime, None),
         ('timeShiftBufferDepth', from_isodatetime, None),
         ('mediaPresentationDuration', from_isodatetime, None),
         ('profiles', set_from_comma_string, None),
@@ -58,7 +59,7 @@ class Manifest(DashElement):
         if self.baseurl is None:
             self.baseurl = url
             assert isinstance(url, str)
-        if mode != 'live':
+        if mode != 'live' and self.profiles is not None:
             if "urn:mpeg:dash:profile:isoff-on-demand:2011" in self.profiles:
                 self.mode = 'odvod'
         if self.publishTime is None:
@@ -172,6 +173,12 @@ class Manifest(DashElement):
         self.elt.check_greater_than(
             len(self.periods), 0,
             msg=f'Manifest does not have a Period element: {self.url}')
+        self.attrs.check_not_none(
+            self.profiles, msg='MPD@profiles is a mandatory attribute',
+            clause='5.3.1.2')
+        self.attrs.check_not_none(
+            self.minBufferTime, msg='MPD@minBufferTime is a mandatory attribute',
+            clause='5.3.1.2')
         if self.mode == "live":
             self.attrs.check_equal(
                 self.mpd_type, "dynamic",
